@@ -22,6 +22,8 @@ type node struct {
 	data     []byte
 	version  int32
 	cversion int32
+	mzxid    int64 // transaction that last changed the node's data (or created it)
+	pzxid    int64 // transaction that last changed the node's set of children
 }
 
 type FakeZK struct {
@@ -47,6 +49,7 @@ type heldEvent struct {
 	s    *session
 	pkt  []byte
 	desc string
+	zxid int64 // the transaction that caused it
 }
 
 type session struct {
@@ -282,8 +285,9 @@ func (s *session) serve() {
 			z.ReqCount[key]++
 		}
 		r := &enc{}
+		var defer0 func() // what has to follow the reply on the wire
 		code := int32(0)
-		hdr := func(c int32) { code = c; r.i32(xid); r.i64(z.zxid); r.i32(c) }
+		hdr := func(c int32) { code = c; r.i32(xid); r.i64(s.visibleZxid()); r.i32(c) }
 		if fc, ok := z.FailNext[key]; ok && op != 11 {
 			delete(z.FailNext, key)
 			hdr(fc)
@@ -293,15 +297,38 @@ func (s *session) serve() {
 				hdr(0)
 			case -11: // close
 				hdr(0)
-			case 101: // setWatches: re-register what the client still watches
-				d.i64()
-				for _, m := range []map[string]bool{s.dataW, s.existW, s.childW} {
+			case 101: // setWatches: re-register what the client still watches — and fire at once what changed
+				// while it was away (ZooKeeper's DataTree.setWatches): the client passes the last
+				// transaction id it has seen
+				rel := d.i64()
+				var fire [][2]interface{}
+				for i, m := range []map[string]bool{s.dataW, s.existW, s.childW} {
 					n := d.i32()
-					for i := int32(0); i < n && !d.bad; i++ {
-						m[d.str()] = true
+					for j := int32(0); j < n && !d.bad; j++ {
+						p := d.str()
+						nd, ok := z.nodes[p]
+						switch {
+						case i == 0 && !ok:
+							fire = append(fire, [2]interface{}{int32(evDeleted), p})
+						case i == 0 && nd.mzxid > rel:
+							fire = append(fire, [2]interface{}{int32(evDataChanged), p})
+						case i == 1 && ok:
+							fire = append(fire, [2]interface{}{int32(evCreated), p})
+						case i == 2 && !ok:
+							fire = append(fire, [2]interface{}{int32(evDeleted), p})
+						case i == 2 && nd.pzxid > rel:
+							fire = append(fire, [2]interface{}{int32(evChildrenChanged), p})
+						default:
+							m[p] = true
+						}
 					}
 				}
 				hdr(0)
+				defer0 = func() {
+					for _, f := range fire {
+						s.event(f[0].(int32), f[1].(string))
+					}
+				}
 			case 3: // exists
 				if n, ok := z.nodes[path]; ok {
 					hdr(0)
@@ -349,6 +376,9 @@ func (s *session) serve() {
 			z.logf("s%d req op=%d %s w=%v -> %d", s.id, op, path, watch, code)
 		}
 		s.send(r.b)
+		if defer0 != nil {
+			defer0()
+		}
 		z.mu.Unlock()
 		if op == -11 {
 			return
@@ -356,9 +386,31 @@ func (s *session) serve() {
 	}
 }
 
+// visibleZxid is the transaction id a reply to this session may carry. ZooKeeper sends a session's
+// notifications and replies in one order, so a client never learns of a transaction id whose watch
+// notification it has not been sent yet; with held notifications the reply must therefore not run ahead
+// of the oldest one still held (the client hands this id back in setWatches after a reconnect, and the
+// server decides from it which watches have to fire at once).
+func (s *session) visibleZxid() int64 {
+	for _, h := range s.zk.pending {
+		if h.s == s {
+			return h.zxid - 1
+		}
+	}
+	return s.zk.zxid
+}
+
 func (s *session) close() {
 	if !s.closed {
 		s.closed = true
+		// what was held for this connection is lost with it
+		keep := s.zk.pending[:0]
+		for _, h := range s.zk.pending {
+			if h.s != s {
+				keep = append(keep, h)
+			}
+		}
+		s.zk.pending = keep
 		close(s.out)
 		s.c.Close()
 	}
@@ -374,7 +426,7 @@ func (s *session) event(typ int32, path string) {
 	e.i32(3) // SyncConnected
 	e.str(path)
 	if s.zk.Hold {
-		s.zk.pending = append(s.zk.pending, heldEvent{s, e.b, fmt.Sprintf("%d %s", typ, path)})
+		s.zk.pending = append(s.zk.pending, heldEvent{s, e.b, fmt.Sprintf("%d %s", typ, path), s.zk.zxid})
 		return
 	}
 	s.send(e.b)
@@ -418,6 +470,7 @@ func (z *FakeZK) Set(path string, data []byte) {
 	if n, ok := z.nodes[path]; ok {
 		n.data = data
 		n.version++
+		n.mzxid = z.zxid
 		for _, s := range z.sessions {
 			if !s.closed && s.dataW[path] {
 				delete(s.dataW, path)
@@ -426,8 +479,12 @@ func (z *FakeZK) Set(path string, data []byte) {
 		}
 		return
 	}
-	z.nodes[path] = &node{data: data}
+	z.nodes[path] = &node{data: data, mzxid: z.zxid, pzxid: z.zxid}
 	pp := parent(path)
+	if pn, ok := z.nodes[pp]; ok {
+		pn.pzxid = z.zxid
+		pn.cversion++
+	}
 	for _, s := range z.sessions {
 		if s.closed {
 			continue
@@ -462,6 +519,10 @@ func (z *FakeZK) Delete(path string) {
 	for _, p := range sub {
 		delete(z.nodes, p)
 		pp := parent(p)
+		if pn, ok := z.nodes[pp]; ok {
+			pn.pzxid = z.zxid
+			pn.cversion++
+		}
 		for _, s := range z.sessions {
 			if s.closed {
 				continue
